@@ -118,58 +118,61 @@ def mapE {α β} (f : α → Except Err β) : List α → Except Err (List β)
   | [] => .ok []
   | a :: as => do let b ← f a; let bs ← mapE f as; pure (b :: bs)
 
+/-- what `parse` builds from the branches of one structure; `p` is the recursive parser -/
+def buildS (p : List Token → Parent → Except Err (List Structure)) (par cls : Parent)
+    (branches : List (List Token)) : Except Err Structure :=
+  let last := branches.getLast?.getD []
+  match cls with
+  | .forS => do
+      let body ← p last cls
+      pure (Structure.forS ((branches.dropLast).map variableName) body)
+  | .whileS => do
+      let cond ← (if branches.length = 1 then pure none
+                  else do let c ← p (branches.head?.getD []) cls; pure (some c))
+      let body ← p last cls
+      pure (Structure.whileS cond body)
+  | .fnCall =>
+      let (name, params) := processParameters (branches.head?.getD [])
+      if branches.length > 1 then do
+        let body ← p last cls
+        pure (Structure.fnDef name params body)
+      else if params ≠ [] then .error .assertion else pure (Structure.fnCall name)
+  | .lam => do
+      let ar ← (if branches.length = 1 then pure none
+                else do let a ← lambdaArity (branches.head?.getD []); pure (some a))
+      let body ← p last cls
+      pure (Structure.lam ar body)
+  | .lmap | .lfilter | .lsort => do
+      let body ← p (branches.head?.getD []) cls
+      pure (Structure.lamOp cls body)
+  | .listS => do
+      let bs ← mapE (fun b => p b (passParent par cls)) branches
+      pure (Structure.listS bs)
+  | _ => do
+      let bs ← mapE (fun b => p b (passParent par cls)) branches
+      pure (Structure.ifS bs)
+
 def parse : Nat → List Token → Parent → Except Err (List Structure)
   | 0, _, _ => .error .fuel
   | _ + 1, [], _ => .ok []
   | n + 1, t :: ts, par =>
     match t.isGen1 with
     | none =>
-      -- literals, variables, digraph elements: one generic statement
       do let r ← parse n ts par; pure (.generic t :: r)
     | some ch =>
       if ch = cX then do let r ← parse n ts par; pure (.brk par :: r)
       else if ch = cx then do let r ← parse n ts par; pure (.recurse par :: r)
       else match opener? ch with
       | some (cls, cl) =>
-        let (branches, rest) := gb ts [cl] [] []
-        let last := branches.getLast?.getD []
         do
-          let s ← (match cls with
-            | .forS => do
-                let body ← parse n last cls
-                pure (Structure.forS ((branches.dropLast).map variableName) body)
-            | .whileS => do
-                let cond ← (if branches.length = 1 then pure none
-                            else do let c ← parse n (branches.head?.getD []) cls; pure (some c))
-                let body ← parse n last cls
-                pure (Structure.whileS cond body)
-            | .fnCall =>
-                let (name, params) := processParameters (branches.head?.getD [])
-                if branches.length > 1 then do
-                  let body ← parse n last cls
-                  pure (Structure.fnDef name params body)
-                else if params ≠ [] then .error .assertion else pure (Structure.fnCall name)
-            | .lam => do
-                let ar ← (if branches.length = 1 then pure none
-                          else do let a ← lambdaArity (branches.head?.getD []); pure (some a))
-                let body ← parse n last cls
-                pure (Structure.lam ar body)
-            | .lmap | .lfilter | .lsort => do
-                let body ← parse n (branches.head?.getD []) cls
-                pure (Structure.lamOp cls body)
-            | .listS => do
-                let bs ← mapE (fun b => parse n b (passParent par cls)) branches
-                pure (Structure.listS bs)
-            | _ => do   -- ifS
-                let bs ← mapE (fun b => parse n b (passParent par cls)) branches
-                pure (Structure.ifS bs))
-          let r ← parse n rest par
+          let s ← buildS (parse n) par cls (gb ts [cl] [] []).1
+          let r ← parse n (gb ts [cl] [] []).2 par
           pure (s :: r)
       | none =>
         if monadicMods.contains ch then
           (match ts with
            | [] => .ok []
-           | _ => do
+           | _ :: _ => do
               let rem ← parse n ts .mon
               match rem with
               | a :: r => if ch = 8317 then pure (.lam (some 1) [a] :: r) else pure (.mon [ch] a :: r)
@@ -177,7 +180,7 @@ def parse : Nat → List Token → Parent → Except Err (List Structure)
         else if dyadicMods.contains ch then
           (match ts with
            | [] => .ok []
-           | _ => do
+           | _ :: _ => do
               let rem ← parse n ts .dy
               match rem with
               | a :: b :: r => if ch = 8225 then pure (.lam (some 1) [a, b] :: r) else pure (.dy [ch] a b :: r)
@@ -185,7 +188,7 @@ def parse : Nat → List Token → Parent → Except Err (List Structure)
         else if triadicMods.contains ch then
           (match ts with
            | [] => .ok []
-           | _ => do
+           | _ :: _ => do
               let rem ← parse n ts .tri
               match rem with
               | a :: b :: c :: r => pure (.lam (some 1) [a, b, c] :: r)
@@ -195,10 +198,4 @@ def parse : Nat → List Token → Parent → Except Err (List Structure)
 
 def parseTop (ts : List Token) : Except Err (List Structure) := parse (ts.length + 1) ts .none
 
--- smoke test:  [ 1 | ( 2
-def g (c : Nat) : Token := ⟨.general, [c]⟩
-def num (c : Nat) : Token := ⟨.number, [c]⟩
-#eval parseTop [g 91, num 49, g 124, g 40, num 50]
-#eval parseTop [g 91, num 49, g 124, g 40, num 50, g 41, g 93]
-#eval parseTop [g 118, g 91, num 49]
 end Vy
